@@ -17,6 +17,9 @@ V: the driver draws own-family data (numpy only), performs the three fits on the
    cases three times - in the given order, in another seeded order (CaseOrderIndependent: all fitted
    parameters bit-identical to each other and to the fresh process) and each first fit again after the
    fixed-parameter instance (FixedFitDoesNotLeak: bit-identical, in the worker and in the fresh process).
+   Plus the explicit low-end cases of spec/FitLawsCases.tla (default start) and the small-magnitude 3-parameter
+   Weibull cases of spec/FitLawsSmall.tla: alpha 0.05..0.2, location > 0, fitted from the generating and from a near
+   user start, x and 20 x (start mapped by ScaleMap), judged by the same clauses.
 """
 import json
 import math
@@ -410,6 +413,82 @@ def lowend_record(rid, c):
     return rec
 
 
+# ----------------------------------------------------------------------------------
+# small-magnitude 3-parameter Weibull data fitted from the generating / a near user start (spec/FitLawsSmall.tla)
+
+def small_key(c):
+    th = ",".join(f"{v / 1e6:g}" for v in c["theta"])
+    return (f"smallscale {c['fam']} theta=({th}) n={c['n']} c={c['num']}/{c['den']} "
+            f"start={c['startkind']} rep={c['rep']}")
+
+
+def small_seed(seed, c):
+    return zlib.crc32(f"{seed}|smallscale|{c['theta']}|{c['n']}|{c['rep']}".encode())
+
+
+def small_record(rid, c, seed):
+    """start s -> fit(x) (p1); ScaleMap(s) -> fit(c x) (p2); p1 -> re-fit(x) (p3); projected into the life-cycle
+    record (no history fields: the bit patterns are empty, kfix = 0)"""
+    vc = _vc()
+    mk, names = _families(vc)[c["fam"]]
+    fl = lambda q: [v / 1e6 for v in q]
+    theta, thetac, start, startc = fl(c["theta"]), fl(c["thetac"]), fl(c["start"]), fl(c["startc"])
+    cf = c["num"] / c["den"]
+    x = draw(c["fam"], theta, c["n"], np.random.default_rng(small_seed(seed, c)))
+    med = float(np.median(x))
+    if not (0.5 * c["scale"] <= med * 1000 <= 2.0 * c["scale"]):
+        raise Machinery(f"nominal data scale of {small_key(c)} is {c['scale']} milli but the sample median is {med}")
+    rec = dict(id=rid, fam=c["fam"], num=c["num"], den=c["den"], kind=c["startkind"], n=c["n"], label="smallscale",
+               start=c["start"], exc="", kfix=0, bitsA=[], bitsB=[], bits10=[], bits1A=[], bits1C=[], bits1H=[],
+               fx_ll0=NEG, fx_ll=0, fx_pert=NEG, fx_fin=True, mean1=0, std1=0, mean2=0, std2=0)
+    with warnings.catch_warnings():
+        warnings.simplefilter("ignore")
+        try:
+            o1 = mk(**dict(zip(names, start)))
+            p0, _ = qpar(o1.parameters[k] for k in names)
+            ll0 = loglik(o1, x)
+            o1.fit(x)
+            p1f = [float(o1.parameters[k]) for k in names]
+            p1, fin1 = qpar(p1f)
+            xc = cf * x
+            o2 = mk(**dict(zip(names, startc)))
+            ll0c = loglik(o2, xc)
+            o2.fit(xc)
+            p2, fin2 = qpar(o2.parameters[k] for k in names)
+            o3 = mk(**dict(zip(names, p1f))) if fin1 else mk()
+            o3.fit(x)
+            p3, fin3 = qpar(o3.parameters[k] for k in names)
+            rec.update(p0=p0, p1=p1, p2=p2, p3=p3, fin1=fin1, fin2=fin2, fin3=fin3,
+                       ll0=qll(ll0), ll1=qll(loglik(o1, x)), llg=qll(loglik(mk(**dict(zip(names, theta))), x)),
+                       ll0c=qll(ll0c), ll2=qll(loglik(o2, xc)), llgc=qll(loglik(mk(**dict(zip(names, thetac))), xc)),
+                       ll3=qll(loglik(o3, x)))
+        except Exception as e:  # noqa
+            rec.update(exc=f"{type(e).__name__}: {e}"[:200], fin1=True, fin2=True, fin3=True)
+    return rec
+
+
+def judge_small(ctx, smalls, srecs, selftest_too=False):
+    muts = []
+    if selftest_too:
+        good = next((r for r in srecs if r["exc"] == "" and r["n"] == 1000), None)
+        if good is not None:
+            # the location of the fit of c x is not c times that of x (by 3 % of the scale) and the level differs
+            muts.append(dict(good, id=9_500_000, p2=good["p2"][:2] + [good["p2"][2] + good["p2"][0] * 3 // 100],
+                             ll2=good["ll2"] - 70))
+            muts.append(dict(good, id=9_500_001, ll1=good["llg"] - 60, ll0=NEG))
+    fail = ctx.validate("Trace_C12", "Trace_C12.cfg", srecs + muts)
+    for m, clause in zip(muts, ("ScaleEquivariant", "AtLeastGenerating.fit")):
+        if clause not in fail.get(m["id"], []):
+            raise Machinery(f"self-test: corrupted small-scale record did not fail {clause}: got {fail.get(m['id'])}")
+        fail.pop(m["id"])
+    for c, r in zip(smalls, srecs):
+        ctx.case(small_key(c), r["exc"] == "" and r["llg"] > NEG)
+        for clause in fail.get(r["id"], []):
+            detail = {k: r.get(k) for k in ("exc", "p0", "p1", "p2", "p3", "ll0", "llg", "ll1", "ll3", "ll0c", "llgc", "ll2")}
+            ctx.violation(clause, small_key(c), f"record={detail} data_seed={small_seed(ctx.seed, c)}", replay=c)
+    return fail
+
+
 def case_key(c):
     th = ",".join(f"{v / 1e6:g}" for v in c["theta"])
     # no sample-specific numbers: family, class (regime label), generating vector of the class, n, c, start, rep
@@ -498,7 +577,10 @@ def run(ctx):
                 "the class (seeded by VERIF_SEED, family, class, n, replicate). distinct = distinct case key; "
                 "non-trivial = the first fit moved the parameters away from the start values and the generating "
                 "log-likelihood is finite. Every case is run three times in its worker process (given order, "
-                "another seeded order, after a fixed-parameter instance of the same family)")
+                "another seeded order, after a fixed-parameter instance of the same family); plus 18 fixed low-end "
+                "default-start cases and the small-magnitude grid of spec/FitLawsSmall.tla (3-parameter Weibull, alpha "
+                "0.05..0.2 x gamma {0.4, 1} alpha x beta {1.5,2,3} x n {200,1000,5000} x start {generating, near user "
+                "start} x replicate, c = 20, data seeded by VERIF_SEED)")
     ctx.trusted = ["TLC 1.8 evaluating spec/FitLawsOps.tla clause operators",
                    "numpy.random.Generator samplers used to draw own-family data (harness/c12.py draw())",
                    "sum(log dist.pdf(data)) evaluated with the object's own pdf (pdf fidelity is C05's subject)",
@@ -533,6 +615,13 @@ def run(ctx):
             ctx.violation(clause, lowend_key(c), f"record={detail}", replay=c)
     ctx.log(f"{len(lrecs)} low-end cases judged, {len(lfail)} rejected")
     ctx.notes["lowend_cases"] = len(lrecs)
+    # small-magnitude 3-parameter Weibull data, fitted from the generating / a near user start (x and 20 x)
+    smalls = sorted(ctx.generate("FitLawsSmall", ctx.pick("Gen_FitLawsSmall_quick.cfg", "Gen_FitLawsSmall_thorough.cfg")),
+                    key=small_key)
+    srecs = [small_record(20_000_000 + i, c, ctx.seed) for i, c in enumerate(smalls)]
+    sfail = judge_small(ctx, smalls, srecs, selftest_too=True)
+    ctx.log(f"{len(srecs)} small-magnitude generating/near-start cases judged, {len(sfail)} rejected")
+    ctx.notes["smallscale_cases"] = len(srecs)
     selftest(ctx, cases, recs, failing)
     fams = sorted({c["fam"] for c in cases})
     ctx.notes["families"] = fams
@@ -552,6 +641,9 @@ def replay(ctx, case):
         ctx.case(lowend_key(c), True)
         for clause in ctx.validate("Trace_C12", "Trace_C12.cfg", [r]).get(1, []):
             ctx.violation(clause, lowend_key(c), f"record={r}", replay=c)
+        return
+    if c.get("kind") == "smallscale":
+        judge_small(ctx, [c], [small_record(1, c, ctx.seed)])
         return
     recs = execute(ctx, [c])
     judge(ctx, [c], recs)
